@@ -20,6 +20,7 @@ import (
 	"math"
 	"math/big"
 	"os"
+	"path/filepath"
 	"sort"
 	"strconv"
 	"strings"
@@ -656,6 +657,20 @@ func c16Children(o *c16Obj) []*c16Obj {
 	return out
 }
 
+// c16CoarseKinds: operand kinds with all number representations collapsed (a predicate that raises
+// a condition does so because of the operand types, not the representation)
+func c16CoarseKinds(objs ...*c16Obj) string {
+	var ks []string
+	for _, o := range objs {
+		if o.rat != nil {
+			ks = append(ks, "number")
+		} else {
+			ks = append(ks, o.kind)
+		}
+	}
+	return strings.Join(ks, ",")
+}
+
 func c16Kinds(os ...*c16Obj) string {
 	var ks []string
 	for _, o := range os {
@@ -729,7 +744,7 @@ func c16CheckUniverse(c *lib.Ctx, u *c16Universe) {
 					if strings.HasPrefix(got, "G:") {
 						aspect = "go-fault"
 					}
-					c.Report(fmt.Sprintf("pred=%s law=total kinds=%s aspect=%s", c16PredName(p), c16Kinds(a, b), aspect), sweep(i, j), rp)
+					c.Report(fmt.Sprintf("pred=%s law=total kinds=%s aspect=%s", c16PredName(p), c16CoarseKinds(a, b), aspect), sweep(i, j), rp)
 					continue
 				}
 				if p == 0 {
@@ -860,8 +875,8 @@ func c16HashAspect(a, b *c16Obj, modelEqual bool) string {
 func c16PredFamily(c *lib.Ctx) {
 	// round 0: the sweep universe plus a random part; further rounds: a third of the sweep objects
 	// as anchors, variants of them (composite: fresh tokens, changed representations) and random objects
-	rounds := c.Scale(2, 24)
-	nRandom := c.Scale(45, 70)
+	rounds := c.Scale(2, 100)
+	nRandom := c.Scale(45, 80)
 	for round := 0; round < rounds; round++ {
 		g := &c16Gen{next: 100 + round*100000, rng: c.Rng}
 		fixed := c16FixedUniverse(g)
@@ -887,6 +902,9 @@ func c16PredFamily(c *lib.Ctx) {
 			default:
 				wires = append(wires, g.randomObj(3))
 			}
+		}
+		if round == 0 {
+			c.Ev.Coverage["pred_fixed_universe"] = nFixed
 		}
 		u := c16BuildUniverse(c, wires, nFixed)
 		c16CheckUniverse(c, u)
@@ -942,6 +960,23 @@ func runC16(c *lib.Ctx) {
 	c16PredFamily(c)
 	c16HashFamily(c)
 	c16TypeFamily(c)
+	if c.GenBroken != "" {
+		// a generated obligation (Theorems/GenC16) no longer builds: attach it to the witnesses the
+		// type family found on the implementation (if none is found ./check reports no-failing-input-found)
+		lean, _ := os.ReadFile(filepath.Join(c.OutDir, "gen-broken.txt"))
+		txt := string(lean)
+		if i := strings.Index(txt, "error:"); i >= 0 {
+			txt = txt[i:]
+		}
+		if len(txt) > 1500 {
+			txt = txt[:1500]
+		}
+		for _, v := range c.Violations {
+			if strings.HasPrefix(v.Signature, "type-law=") {
+				v.Replay["broken"] = map[string]any{"obligation": c.GenBroken, "lean_error": txt}
+			}
+		}
+	}
 	if path := os.Getenv("C16_DUMP"); path != "" {
 		// debugging aid: every violation signature of the run (the check prints only the first 25)
 		var sb strings.Builder
